@@ -156,9 +156,15 @@ pub fn parse_file(
 
     debug!("parsing file `{}`", file_path.display());
     let program = parser_logic::parse_file(&file_content, file_id)?;
+    // A report about the version pragma concerns this file (only): it is located at the start
+    // of the file, so that it is filtered like any other finding of the file.
+    let located = |mut report: Report| {
+        report.add_primary(0..0, file_id, "The file starts here.".to_string());
+        report
+    };
     match check_compiler_version(file_path, program.compiler_version, compiler_version) {
-        Ok(warnings) => reports.extend(warnings),
-        Err(error) => reports.push(*error),
+        Ok(warnings) => reports.extend(warnings.into_iter().map(located)),
+        Err(error) => reports.push(located(*error)),
     }
     for include in &program.includes {
         if let Err(report) = file_stack.add_include(include) {
